@@ -355,6 +355,9 @@ func runC12(c *Ctx) {
 	// R15 (shared with C20.Z8) / R16 (shared with C01.R13)
 	checkWorkerCountBounded(c, "R15")
 	checkAppendStartsAtEnd(c, "R16")
+	checkAtMethodsUseTheirOffset(c, "R17")
+	// R18 (shared with C13.R4): the count the sequential loops return is what moves the offset in Read and Write
+	checkSequentialLoops(c, "R18")
 	c.withRule("R13", func() {
 		c01TransferSitesOnly = true
 		defer func() { c01TransferSitesOnly = false }()
@@ -952,6 +955,18 @@ func checkOffsetStores(c *Ctx, rule string, only map[string]bool) {
 		}},
 	}
 	nStores := 0
+	storesIn := map[string]int{}
+	defer func() {
+		// every one of the position-moving functions does move the position
+		if only == nil {
+			for _, sh := range shapes {
+				if p.Func(sh.fn) == nil {
+					continue
+				}
+				c.check(storesIn[sh.fn] >= 1, rule, sh.fn+" moves the offset", "?", fmt.Sprintf("%d stores", storesIn[sh.fn]), sh.fn+" no longer stores to the File offset: after the transfer the position is where it was, the next Read delivers the same bytes again")
+			}
+		}
+	}()
 	for _, f := range fileFuncs(p) {
 		for _, a := range fileAccessesIn(f) {
 			if a.Field != "offset" || !a.Write {
@@ -960,6 +975,8 @@ func checkOffsetStores(c *Ctx, rule string, only map[string]bool) {
 			nStores++
 			st := a.In.(*ssa.Store)
 			host := fnName(outermost(f))
+			storesIn[host]++
+			storesIn[fnName(f)]++
 			if host == "(*File).Seek" {
 				continue // R6
 			}
@@ -1922,6 +1939,50 @@ func checkSequentialLoops(c *Ctx, rule string) {
 					short := reachCoreX(call.Block(), idxIn(call)+1, errReturn, func(in ssa.Instruction) bool { return isAdvance(in) || isLoopHeadStart(l)(in) }, noBytes)
 					c.check(!short, rule, spec.fn+" counts what the failing chunk moved", pos(site), "the cursor is advanced by n before the error is returned",
 						"the error of a chunk is returned before its byte count is added: the bytes that chunk still moved (the tail of the file read together with EOF) are not counted and are lost to the caller")
+					// … and what is returned with the error is that running count (not the length of the whole buffer)
+					// (in the positional transfer functions — (b []byte, off int64) (int, error) — where the count returned
+					// is the count of chunk bytes; ReadFrom and WriteTo count what the source gave / the sink took)
+					positional := len(fn.Params) == 3 && isByteSlice(fn.Params[1].Type()) && isBasicKind(types.Int64)(fn.Params[2].Type())
+					for _, rin := range findInstrs(fn, errReturn) {
+						if !positional {
+							break
+						}
+						r := rin.(*ssa.Return)
+						if !(call.Block() == r.Block() || call.Block().Dominates(r.Block())) {
+							continue // not a return of this chunk's iteration
+						}
+						isCount := false
+						seen := map[ssa.Value]bool{}
+						var walk func(v ssa.Value, d int)
+						walk = func(v ssa.Value, d int) {
+							v = stripConv(v)
+							if v == nil || seen[v] || d > 6 {
+								return
+							}
+							seen[v] = true
+							if in, ok := v.(ssa.Instruction); ok && isAdvance(in) {
+								isCount = true
+								return
+							}
+							switch x := v.(type) {
+							case *ssa.Phi:
+								for _, e := range x.Edges {
+									walk(e, d+1)
+								}
+							case *ssa.UnOp:
+								if x.Op == token.MUL {
+									if a, ok := x.X.(*ssa.Alloc); ok {
+										for _, st := range reachingStores(x, a) {
+											walk(st.Val, d+1)
+										}
+									}
+								}
+							}
+						}
+						walk(r.Results[0], 0)
+						c.check(isCount, rule, spec.fn+" returns the running count with a chunk's error", pos(rin), "the count that grew by each chunk's bytes",
+							"with a chunk's error the loop returns "+affineOf(r.Results[0]).String()+", which is not the running count: the caller is told that bytes moved which were refused")
+					}
 				}
 			}
 			// the chunk's own error is examined on every path that goes on or reports success: a test of a variable that
@@ -2033,4 +2094,62 @@ func checkWriteChunkCountsOnlyAcknowledged(c *Ctx, rule string) {
 		c.check(isConst && k == 0, rule, "writeChunkAt failure returns no bytes", p.Pos(in.Pos()), "0, err", "a WRITE that failed (or whose reply was not an OK status) is reported as having moved bytes: the caller adds them to its count and to the File offset, the refused chunk is skipped")
 	}
 	c.check(n >= 3, rule, "returns of writeChunkAt", p.Pos(fn.Pos()), fmt.Sprintf("%d returns", n), fmt.Sprintf("only %d returns found", n))
+}
+
+// checkAtMethodsUseTheirOffset (C12.R17 / C01.R25): ReadAt and WriteAt are positional — like os.File's, they transfer at
+// the offset they are given and neither read nor move the implicit position.  In each of them no load of the File's
+// offset field occurs, and the helper they hand the buffer to receives their own offset parameter.
+func checkAtMethodsUseTheirOffset(c *Ctx, rule string) {
+	p := c.P
+	for _, name := range []string{"(*File).ReadAt", "(*File).WriteAt"} {
+		fn := p.Func(name)
+		if fn == nil {
+			c.missing(rule, name)
+			continue
+		}
+		var offPrm *ssa.Parameter
+		for _, prm := range fn.Params {
+			if isBasicKind(types.Int64)(prm.Type()) {
+				offPrm = prm
+			}
+		}
+		if offPrm == nil {
+			c.und(rule, name+" transfers at its argument", p.Pos(fn.Pos()), "no int64 parameter")
+			continue
+		}
+		readsPos := false
+		eachInstr(fn, func(in ssa.Instruction) {
+			if u, ok := in.(*ssa.UnOp); ok && u.Op == token.MUL {
+				if t, n, _, okF := fieldOf(u.X); okF && n == "offset" && typeName(t) == "File" {
+					readsPos = true
+				}
+			}
+		})
+		passes, calls := true, 0
+		eachInstr(fn, func(in ssa.Instruction) {
+			call, ok := in.(*ssa.Call)
+			if !ok || call.Call.StaticCallee() == nil || !inModule(call.Call.StaticCallee()) {
+				return
+			}
+			hasBuf := false
+			var offArg ssa.Value
+			for _, a := range call.Call.Args {
+				if isByteSlice(a.Type()) {
+					hasBuf = true
+				}
+				if isBasicKind(types.Int64)(a.Type()) {
+					offArg = a
+				}
+			}
+			if !hasBuf || offArg == nil {
+				return
+			}
+			calls++
+			if stripConv(offArg) != ssa.Value(offPrm) {
+				passes = false
+			}
+		})
+		c.check(!readsPos && passes && calls >= 1, rule, name+" transfers at its argument", p.Pos(fn.Pos()), "the helper gets the caller's offset; the implicit position is not read",
+			name+" does not transfer at the offset it was given (it reads the File's implicit position, or hands another offset to its helper): a positional read or write lands somewhere else")
+	}
 }
